@@ -14,7 +14,51 @@ import (
 // are rendered too.
 var skeletonFull = false
 
+// skeletonDetail: call arguments and the members of composite literals are rendered too (the newer pins)
+var skeletonDetail = false
+
+func detailExpr(e ast.Expr) string {
+	switch x := e.(type) {
+	case *ast.CompositeLit:
+		var es []string
+		for _, el := range x.Elts {
+			es = append(es, detailExpr(el))
+		}
+		t := ""
+		if x.Type != nil {
+			t = exprString(x.Type)
+		}
+		return t + "{" + strings.Join(es, ", ") + "}"
+	case *ast.KeyValueExpr:
+		return detailExpr(x.Key) + ": " + detailExpr(x.Value)
+	case *ast.UnaryExpr:
+		return x.Op.String() + detailExpr(x.X)
+	case *ast.CallExpr:
+		if _, ok := x.Fun.(*ast.FuncLit); ok {
+			return "func(){…}()"
+		}
+		var as []string
+		for _, a := range x.Args {
+			as = append(as, detailExpr(a))
+		}
+		return exprString(x.Fun) + "(" + strings.Join(as, ", ") + ")"
+	case *ast.FuncLit:
+		return "func(){…}"
+	}
+	return exprString(e)
+}
+
 func callOrExpr(e ast.Expr) string {
+	if skeletonDetail {
+		if c, ok := e.(*ast.CallExpr); ok {
+			if fl, ok := c.Fun.(*ast.FuncLit); ok {
+				var inner []string
+				skeleton(fl.Body.List, &inner)
+				return "func(){" + strings.Join(inner, "; ") + "}()"
+			}
+		}
+		return detailExpr(e)
+	}
 	if c, ok := e.(*ast.CallExpr); ok {
 		if fl, ok := c.Fun.(*ast.FuncLit); ok {
 			var inner []string
@@ -142,18 +186,40 @@ func skeleton(list []ast.Stmt, out *[]string) {
 	}
 }
 
-type skelSpec struct{ file, recv, name, lean string }
+type skelSpec struct {
+	file, recv, name, lean string
+	detail                 bool
+}
 
 func genSkeletons() {
 	specs := []skelSpec{
-		{"daemon/internal/newrelic/collector/client.go", "limitClient", "Execute", "limitExecute"},
-		{"daemon/internal/newrelic/processor.go", "Processor", "CleanExit", "cleanExit"},
-		{"daemon/internal/newrelic/listener.go", "", "ReadMessage", "readMessage"},
-		{"daemon/internal/newrelic/listener.go", "MessageWriter", "Write", "messageWrite"},
-		{"daemon/internal/newrelic/processor.go", "Processor", "processAppInfo", "processAppInfo"},
-		{"daemon/internal/newrelic/processor.go", "Processor", "processTxnData", "processTxnData"},
-		{"daemon/internal/newrelic/processor.go", "Processor", "processSpanBatch", "processSpanBatch"},
-		{"daemon/internal/newrelic/infinite_tracing/trace_observer.go", "TraceObserver", "QueueBatch", "queueBatch"},
+		{"daemon/internal/newrelic/collector/client.go", "limitClient", "Execute", "limitExecute", false},
+		{"daemon/internal/newrelic/processor.go", "Processor", "CleanExit", "cleanExit", false},
+		{"daemon/internal/newrelic/listener.go", "", "ReadMessage", "readMessage", false},
+		{"daemon/internal/newrelic/listener.go", "MessageWriter", "Write", "messageWrite", false},
+		{"daemon/internal/newrelic/processor.go", "Processor", "processAppInfo", "processAppInfo", false},
+		{"daemon/internal/newrelic/processor.go", "Processor", "processTxnData", "processTxnData", false},
+		{"daemon/internal/newrelic/processor.go", "Processor", "processSpanBatch", "processSpanBatch", false},
+		{"daemon/internal/newrelic/infinite_tracing/trace_observer.go", "TraceObserver", "QueueBatch", "queueBatch", false},
+		// the functions the processor model transcribes (harvest, connect) and the hand-back / rename / label code
+		{"daemon/internal/newrelic/processor.go", "Processor", "doHarvest", "doHarvest", true},
+		{"daemon/internal/newrelic/processor.go", "", "harvestAll", "harvestAll", true},
+		{"daemon/internal/newrelic/processor.go", "", "harvestByType", "harvestByType", true},
+		{"daemon/internal/newrelic/processor.go", "Processor", "considerConnect", "considerConnect", true},
+		{"daemon/internal/newrelic/processor.go", "", "ConnectApplication", "connectApplication", true},
+		{"daemon/internal/newrelic/processor.go", "Processor", "Run", "runLoop", true},
+		{"daemon/internal/newrelic/lasp.go", "AgentPolicies", "verifySecurityPolicies", "verifySecurityPolicies", true},
+		{"daemon/internal/newrelic/lasp.go", "AgentPolicies", "addPoliciesToPayload", "addPoliciesToPayload", true},
+		{"daemon/internal/newrelic/metrics.go", "MetricTable", "ApplyRules", "applyRules", true},
+		{"daemon/internal/newrelic/metrics.go", "MetricTable", "FailedHarvest", "metricsFailedHarvest", true},
+		{"daemon/internal/newrelic/metrics.go", "MetricTable", "MergeFailed", "metricsMergeFailed", true},
+		{"daemon/internal/newrelic/analytics_events.go", "analyticsEvents", "MergeFailed", "eventsMergeFailed", true},
+		{"daemon/internal/newrelic/analytics_events.go", "analyticsEvents", "Split", "eventsSplit", true},
+		{"daemon/internal/newrelic/log_events.go", "LogEvents", "SetLogForwardingLabels", "setLogForwardingLabels", true},
+		{"daemon/internal/newrelic/log_events.go", "LogEvents", "CollectorJSON", "logCollectorJSON", true},
+		{"daemon/internal/newrelic/commands.go", "", "aggregateMetrics", "aggregateMetrics", true},
+		{"daemon/internal/newrelic/infinite_tracing/trace_observer.go", "TraceObserver", "Shutdown", "observerShutdown", true},
+		{"daemon/internal/newrelic/infinite_tracing/trace_observer.go", "TraceObserver", "doStreaming", "doStreaming", true},
 	}
 	var b strings.Builder
 	b.WriteString("namespace Gen.Skeleton\n\n")
@@ -162,6 +228,7 @@ func genSkeletons() {
 	for _, sp := range specs {
 		_, f := parseFile(sp.file)
 		var sk []string
+		skeletonDetail = sp.detail
 		if f != nil {
 			if fn := findFunc(f, sp.recv, sp.name); fn != nil {
 				skeleton(fn.Body.List, &sk)
@@ -179,6 +246,7 @@ func genSkeletons() {
 		}
 		b.WriteString("]\n\n")
 	}
+	skeletonDetail = false
 	b.WriteString("end Gen.Skeleton\n")
 	writeLean("Skeleton", b.String())
 }
